@@ -1046,6 +1046,9 @@ func argToSlice(arg any) []string {
 			dst = append(dst, k, v)
 		}
 		return dst
+	case time.Time, time.Duration, encoding.BinaryMarshaler:
+		// one argument, like in the adapter and in go-redis
+		return []string{str(arg)}
 	default:
 		v := reflect.ValueOf(arg)
 		if v.Kind() == reflect.Ptr {
